@@ -201,6 +201,116 @@ TDiagExtract(A) ==
         MkCore(LRank(A.c[p]), ISize(A.c[p]), 1, RRank(A.c[p]),
                LAMBDA a, i, j, b : A.c[p][a][i][i][b])]]
 
+\* ================================================= indexing (dense level, C08)
+\* An index expression is a sequence of items
+\*   [t |-> "i", v |-> n]               an integer (negative allowed)
+\*   [t |-> "s", lo, hi, st]            a slice; NONE stands for an omitted bound
+\*   [t |-> "n"]                        None (a new unit mode)
+\*   [t |-> "e"]                        Ellipsis
+NONE == 99
+SlLo(it, n) == IF it.lo = NONE THEN 0 ELSE IF it.lo < 0 THEN Max2(it.lo + n, 0) ELSE Min2(it.lo, n)
+SlHi(it, n) == IF it.hi = NONE THEN n ELSE IF it.hi < 0 THEN Max2(it.hi + n, 0) ELSE Min2(it.hi, n)
+SlLen(it, n) == LET lo == SlLo(it, n)  hi == SlHi(it, n) IN
+                IF hi > lo THEN (hi - lo + it.st - 1) \div it.st ELSE 0
+IntPos(v, n) == IF v < 0 THEN v + n ELSE v          \* zero-based position
+FullSlice == [t |-> "s", lo |-> NONE, hi |-> NONE, st |-> 1]
+NConsumers(e) == Cardinality({p \in 1..Len(e) : e[p].t \in {"i", "s"}})
+\* replace the Ellipsis (at most one) by the right number of full slices; pad a short tuple with full slices
+Expand(e, d) ==
+    LET k == d - NConsumers(e)
+        pos == {p \in 1..Len(e) : e[p].t = "e"} IN
+    IF pos = {} THEN e \o [q \in 1..k |-> FullSlice]
+    ELSE LET p == CHOOSE q \in pos : TRUE IN
+         SubSeq(e, 1, p - 1) \o [q \in 1..k |-> FullSlice] \o SubSeq(e, p + 1, Len(e))
+\* valid for the dense array: not more consumers than modes, ints in range, no empty slice
+RECURSIVE ValidItems(_, _)
+ValidItems(e, sh) ==
+    IF e = <<>> THEN TRUE
+    ELSE LET it == e[1] IN
+         IF it.t = "n" THEN ValidItems(Tail(e), sh)
+         ELSE /\ sh # <<>>
+              /\ IF it.t = "i" THEN it.v >= 0 - sh[1] /\ it.v < sh[1] ELSE SlLen(it, sh[1]) >= 1
+              /\ ValidItems(Tail(e), Tail(sh))
+ValidIndex(e, sh) == NConsumers(e) <= Len(sh) /\ ValidItems(Expand(e, Len(sh)), sh)
+\* resulting shape and, for a result index, the source index
+RECURSIVE IdxShape(_, _)
+IdxShape(e, sh) ==
+    IF e = <<>> THEN <<>>
+    ELSE LET it == e[1] IN
+         IF it.t = "n" THEN <<1>> \o IdxShape(Tail(e), sh)
+         ELSE IF it.t = "i" THEN IdxShape(Tail(e), Tail(sh))
+         ELSE <<SlLen(it, sh[1])>> \o IdxShape(Tail(e), Tail(sh))
+RECURSIVE SrcIdx(_, _, _)
+SrcIdx(e, sh, rix) ==        \* rix: 1-based index into the result; returns 1-based index into the source
+    IF e = <<>> THEN <<>>
+    ELSE LET it == e[1] IN
+         IF it.t = "n" THEN SrcIdx(Tail(e), sh, Tail(rix))
+         ELSE IF it.t = "i" THEN <<IntPos(it.v, sh[1]) + 1>> \o SrcIdx(Tail(e), Tail(sh), rix)
+         ELSE <<SlLo(it, sh[1]) + (rix[1] - 1) * it.st + 1>> \o SrcIdx(Tail(e), Tail(sh), Tail(rix))
+DIndex(A, e0) ==
+    LET e == Expand(e0, Len(A.sh)) IN
+    DenseOf(IdxShape(e, A.sh), LAMBDA rix : At(A, SrcIdx(e, A.sh, rix)))
+\* all index positions are integers: the result is a number
+AllInts(e0, d) == LET e == Expand(e0, d) IN \A p \in 1..Len(e) : e[p].t = "i"
+
+\* ============================================ cat / pad / mprod (dense level, C09)
+DCat2(A, B, ax) ==          \* concatenate along axis ax (1-based)
+    LET sh == [p \in 1..Len(A.sh) |-> IF p = ax THEN A.sh[p] + B.sh[p] ELSE A.sh[p]] IN
+    DenseOf(sh, LAMBDA ix : IF ix[ax] <= A.sh[ax] THEN At(A, ix)
+                            ELSE At(B, [ix EXCEPT ![ax] = ix[ax] - A.sh[ax]]))
+\* constant padding of the trailing Len(w) modes of a tensor; w[q] = <<before, after>>
+DPadT(A, w, val) ==
+    LET n == Len(A.sh)  off == n - Len(w)
+        sh == [p \in 1..n |-> IF p <= off THEN A.sh[p] ELSE A.sh[p] + w[p - off][1] + w[p - off][2]]
+        Inside(ix) == \A p \in (off + 1)..n : ix[p] > w[p - off][1] /\ ix[p] <= w[p - off][1] + A.sh[p] IN
+    DenseOf(sh, LAMBDA ix : IF Inside(ix)
+                            THEN At(A, [p \in 1..n |-> IF p <= off THEN ix[p] ELSE ix[p] - w[p - off][1]])
+                            ELSE val)
+\* operator padding (every mode padded; w[p] = <<before, after>>): the original block is kept, the
+\* all-leading and the all-trailing corner blocks are val times the identity, everything else is zero
+\* ("diagonal padding": leading and trailing paddings couple only to themselves).
+DPadM(A, d, w, val) ==
+    LET M == SubSeq(A.sh, 1, d)  N == SubSeq(A.sh, d + 1, 2*d)
+        b(p) == w[p][1]
+        a(p) == w[p][2]
+        sh == [p \in 1..(2*d) |-> IF p <= d THEN M[p] + b(p) + a(p) ELSE N[p - d] + b(p - d) + a(p - d)]
+        Cls(p, i, j) == IF i > b(p) /\ i <= b(p) + M[p] /\ j > b(p) /\ j <= b(p) + N[p] THEN "in"
+                        ELSE IF i <= b(p) /\ j <= b(p) THEN (IF i = j THEN "lead" ELSE "zero")
+                        ELSE IF i > b(p) + M[p] /\ j > b(p) + N[p]
+                             THEN (IF i - b(p) - M[p] = j - b(p) - N[p] THEN "trail" ELSE "zero")
+                        ELSE "zero" IN
+    DenseOf(sh, LAMBDA ix :
+        LET cls == [p \in 1..d |-> Cls(p, ix[p], ix[d + p])] IN
+        IF \A p \in 1..d : cls[p] = "in"
+        THEN At(A, [q \in 1..(2*d) |-> IF q <= d THEN ix[q] - b(q) ELSE ix[q] - b(q - d)])
+        ELSE IF \A p \in 1..d : cls[p] = "lead" THEN val
+        ELSE IF \A p \in 1..d : cls[p] = "trail" THEN val
+        ELSE GZero)
+\* mode product: contract mode p (1-based) of A with the second index of the matrix Mt (shape <<m, n>>)
+DMProd1(A, Mt, p) ==
+    LET sh == [q \in 1..Len(A.sh) |-> IF q = p THEN Mt.sh[1] ELSE A.sh[q]] IN
+    DenseOf(sh, LAMBDA ix :
+        GSum([j \in 1..A.sh[p] |-> GMul(At(Mt, <<ix[p], j>>), At(A, [ix EXCEPT ![p] = j]))]))
+
+\* ---- TT level: concatenation (block placement with running rank offsets)
+TCat2(x, y, ax) ==
+    LET d == Order(x) IN
+    [k |-> "tt",
+     c |-> [p \in 1..d |->
+        LET cx == x.c[p]  cy == y.c[p]
+            lx == LRank(cx)  rx == RRank(cx)  nx == ISize(cx)
+            L == IF p = 1 THEN 1 ELSE lx + LRank(cy)
+            Rr == IF p = d THEN 1 ELSE rx + RRank(cy)
+            n == IF p = ax THEN nx + ISize(cy) ELSE nx
+        IN MkCore(L, n, 1, Rr, LAMBDA a, i, j, b :
+              LET ax_ == (p = 1) \/ a <= lx          ay_ == (p = 1) \/ a > lx
+                  bx_ == (p = d) \/ b <= rx          by_ == (p = d) \/ b > rx
+                  ia == IF p = 1 THEN 1 ELSE a - lx  ib == IF p = d THEN 1 ELSE b - rx
+                  ix_ == (p # ax) \/ i <= nx         iy_ == (p # ax) \/ i > nx
+                  iy == IF p = ax THEN i - nx ELSE i
+              IN GAdd(IF ax_ /\ bx_ /\ ix_ THEN cx[IF p = 1 THEN 1 ELSE a][i][1][IF p = d THEN 1 ELSE b] ELSE GZero,
+                      IF ay_ /\ by_ /\ iy_ THEN cy[ia][iy][1][ib] ELSE GZero))]]
+
 \* rank laws (what the property statements call "the documented rank structure")
 RanksAdd(rx, ry) == [p \in 1..Len(rx) |-> IF p = 1 \/ p = Len(rx) THEN 1 ELSE rx[p] + ry[p]]
 RanksMul(rx, ry) == [p \in 1..Len(rx) |-> rx[p] * ry[p]]
